@@ -1,16 +1,113 @@
 # Round-2 extension (worker w15): unbounded loop-contract proofs replacing the
 # bounded stand-ins of cases.py for the text / tar-extension parsers.
+# Every harness here is `proved`: each input-driven loop of the function under
+# test is closed by a loop contract of contracts/loops/C07_w15.tbl (assigns /
+# invariant / decreases), the input length is symbolic up to the stated cap.
+# Function contracts are enforced by the harness (assume / call / assert) and
+# loop contracts by plain `goto-instrument --apply-loop-contracts` (tool limit
+# DESIGN 11.2: --dfcc + pointer-walking loop contracts does not terminate).
 CT = {"__NO_CTYPE": None}
 
-FUNCTIONS = []
-TRUSTED = []
-ASSUMPTIONS = []
+FUNCTIONS = [
+    "split_line (all lengths <= cap)", "ltrim / rtrim / trim (all lengths <= 4096)",
+    "urldecode (all lengths <= 4096)", "read_pax_header (all record sizes <= 4095)",
+    "pax_sparse_map (all value lengths <= 4096)", "find_handler (all key lengths <= 4096)", "apply_handler + pax_uid/gid/size/mtime/rsize/path/slink/xattr_schily (rows 0..11, all key / value lengths <= 4096)", "pax_xattr_libarchive (all key / value lengths, block <= 4096 payload bytes)",
+    "decode_priority (all line lengths <= 4096)", "decode_flags (all line lengths <= 4096, any number of flag tokens)", "parse of read_sparse_map_old.c (4 / 21 slots)",
+]
+TRUSTED = [
+    "w15 unbounded harnesses: strlen = index of *a* NUL inside the object (superset of the first), memmove = bounds-checking witness-byte stub (DESIGN 2.4)",
+    "w15 unbounded harnesses: sparse lists (pax_loop_unb, pax_map_unb) are abstracted by one summary node handed out by calloc; list shape and leak freedom stay with the bounded harnesses pax_loop / pax_sparse_map / old_sparse",
+    "w15 split_line_unb: append_arg (realloc + store, 4 lines) is replaced by its contract stub_append_arg on one typed header object; the real append_arg is exercised by the bounded harness split_line",
+    "w15 sort_flags_unb: split_line is its contract (error codes, or a list of count <= (len+1)/2 tokens in a heap block of exactly count slots); its universally quantified postcondition 'every args[i] points into line[0..len]' is instantiated (assumed) at the point where the token is handed to trim; trim / strcmp(tok, literal) / strchr / strlen / memmove are contracts (in place inside the token, any result, a ']' before the terminator, a NUL inside the object, bounds-checking witness-byte move)",
+    "w15 pax_xattr_unb: base64_decode (in place, result <= capacity) and urldecode (in place, never grows; proved by urldecode_unb) as contracts; the xattr block is allocated with exactly sizeof(sqfs_xattr_t)+klen+1+vlen+1 bytes",
+    "w15 sort_prio_unb / pax_map_unb: parse_int / parse_uint as contracts (proved unbounded in harness parse_int): on success 1 <= diff consumed bytes, none of them NUL",
+    "w15 pax_loop_unb: strcmp(key, literal) returns any value (both outcomes of each key comparison explored); strtol / parse_uint / record_to_memory / find_handler / apply_handler as in pax_loop, but their 'distance to the terminator' is any value up to the record end (no read of the record inside the contracts)",
+]
+ASSUMPTIONS = [
+    "caps of the w15 unbounded proofs: object size <= 4096 bytes (symbolic below the cap), stated per harness case id",
+    "goto-instrument 6.11 rejects loop contracts on do/while loops whose condition has no side effect (conditional back edge): read_gnu_old_sparse's extension-record chain stays bounded (harness old_sparse); its slot decoder parse() is proved for the two slot counts of the format (old_parse)",
+    "split_line_unb: proved for all lengths <= 63 with the exact-size object (len+1 bytes; beyond that the array-theory SAT problem of the five nested loop contracts gives no verdict in 600 s: minisat and cadical at 255, z3 and cvc5 at 4095 tried) and for all lengths <= 4095 with the fixed object (line right-aligned; 38 min); the loop invariants are independent of the cap",
+    "guard-less `for (;;)` loops get no loop contract in cbmc 6.11: istream_get_line, decode_filename, read_header and fstree_from_file_stream stay bounded (harnesses get_line, sort_decode, read_header, handle_line)",
+]
+
+_PAX_FP = {"sint": "pax_mtime", "uint": ["pax_uid", "pax_gid", "pax_size", "pax_rsize"],
+           "str": ["pax_path", "pax_slink"], "cstr": "pax_sparse_map",
+           "xattr": ["pax_xattr_schily", "pax_xattr_libarchive"]}
 
 HARNESSES = [
+    # Two object models. `exact*`: the line object has exactly len+1 bytes (symbolic size, array theory):
+    # every byte outside line[0..len] is a pointer-check failure; formula size is independent of the cap
+    # (1.8 M variables: array theory over the havocked object x 5 loop contracts) but SAT time is not:
+    # 8 -> 55 s, 31 -> 130 s, 63 -> 210 s, 255 and 4095 -> no verdict in 600 s (minisat, cadical, z3, cvc5).
+    # `fix*`: a fixed object of cap+1 bytes with the line right-aligned in it (line[len] is the last byte of
+    # the object: overruns at the top are pointer-check failures, the bottom is guarded by the invariants
+    # src, dst >= line): 63 -> 80 s, 255 -> 230 s, 1023 -> 300..470 s, 4095 -> 2295 s (4.3 M variables, 4 GB).
+    # The invariants themselves are cap-free.
     dict(name="split_line_unb", file="w15_split_line_unb.c", label="proved",
          loops=["split_line"], loop_tables=["C07_w15"], defines=CT,
-         unwindset=["strchr.0:4"],
-         pre_instrument_flags=["--replace-calls", "append_arg:stub_append_arg"], timeout=900, weight=4,
-         cases=[dict(id="max255", defines={"SPLIT_MAX": 255, "__NO_CTYPE": None}, tier="quick", timeout=200),
-                dict(id="max4095", defines={"SPLIT_MAX": 4095, "__NO_CTYPE": None}, tier="thorough", timeout=300)]),
+         unwindset=["strchr.0:4"], timeout=1500, weight=8,
+         pre_instrument_flags=["--replace-calls", "append_arg:stub_append_arg"],
+         cases=[dict(id="fix15", defines={"SPLIT_MAX": 15, "SL_FIXED": None, "__NO_CTYPE": None}, tier="quick"),
+                dict(id="fix63", defines={"SPLIT_MAX": 63, "SL_FIXED": None, "__NO_CTYPE": None}, tier="quick"),
+                dict(id="exact31", defines={"SPLIT_MAX": 31, "__NO_CTYPE": None}, tier="thorough"),
+                dict(id="exact63", defines={"SPLIT_MAX": 63, "__NO_CTYPE": None}, tier="thorough"),
+                dict(id="fix255", defines={"SPLIT_MAX": 255, "SL_FIXED": None, "__NO_CTYPE": None}, tier="thorough"),
+                dict(id="fix1023", defines={"SPLIT_MAX": 1023, "SL_FIXED": None, "__NO_CTYPE": None}, tier="thorough"),
+                # the full cap: measured 2295 s / 4.0 GB (4.3 M variables) - the longest job of the thorough tier
+                dict(id="fix4095", defines={"SPLIT_MAX": 4095, "SL_FIXED": None, "__NO_CTYPE": None}, tier="thorough",
+                     timeout=4200)]),
+    dict(name="trim_unb", file="w15_trim_unb.c", label="proved",
+         loops=["ltrim", "rtrim"], loop_tables=["C07_w15"], timeout=600,
+         cases=[dict(id="ltrim_max4096", defines={"PART": 0, "TRIM_MAX": 4096, "__NO_CTYPE": None}, tier="quick"),
+                dict(id="rtrim_max4096", defines={"PART": 1, "TRIM_MAX": 4096, "__NO_CTYPE": None}, tier="quick"),
+                dict(id="trim_max4096", defines={"PART": 2, "TRIM_MAX": 4096, "__NO_CTYPE": None}, tier="quick")]),
+    dict(name="urldecode_unb", file="w15_urldecode_unb.c", label="proved",
+         loops=["urldecode"], loop_tables=["C07_w15"], timeout=600,
+         nochecks=["--conversion-check"],   # sqfs_u8 x = *(in++): char -> u8 is the intended idiom
+         fp=_PAX_FP,
+         cases=[dict(id="max4096", defines={"URL_MAX": 4096, "__NO_CTYPE": None}, tier="quick")]),
+    dict(name="pax_map_unb", file="w15_pax_map_unb.c", label="proved",
+         loops=["pax_sparse_map"], loop_tables=["C07_w15"], timeout=600,
+         nochecks=["--conversion-check"],   # parse_uint(line, -1, ..): int -1 -> size_t is the intended idiom
+         fp=_PAX_FP,
+         unwindset=["strlen.0:22"],
+         cases=[dict(id="max4096", defines={"MAP_MAX": 4096, "__NO_CTYPE": None}, tier="quick"),
+                dict(id="via_apply", defines={"MAP_MAX": 4096, "VIA_APPLY": None, "__NO_CTYPE": None}, tier="quick")]),
+    dict(name="pax_loop_unb", file="w15_pax_loop_unb.c", label="proved",
+         loops=["read_pax_header"], loop_tables=["C07_w15"], timeout=900, weight=6,
+         pre_instrument_flags=["--replace-calls", "find_handler:stub_find_handler",
+                               "--replace-calls", "apply_handler:stub_apply_handler"],
+         nochecks=["--conversion-check"],
+         fp=_PAX_FP,
+         cases=[dict(id="max32", defines={"PAX_MAX": 32, "__NO_CTYPE": None}, tier="quick"),
+                dict(id="max4095", defines={"PAX_MAX": 4095, "__NO_CTYPE": None}, tier="thorough")]),
+    # loops over the 14 table rows / row names <= 19 bytes: constants of the code, unwound completely
+    dict(name="pax_find_unb", file="w15_pax_find_unb.c", label="proved", timeout=600, unwind=22,
+         nochecks=["--conversion-check"], fp=_PAX_FP,
+         cases=[dict(id="max4096", defines={"KEY_MAX": 4096, "__NO_CTYPE": None}, tier="quick")]),
+    # apply_handler is loop-free; rows 0..11 = every row with a loop-free callback (12, 13: pax_xattr_unb, pax_map_unb)
+    dict(name="pax_apply_unb", file="w15_pax_apply_unb.c", label="proved", timeout=600, unwind=22,
+         nochecks=["--conversion-check"], fp=_PAX_FP,
+         cases=[dict(id="row%d" % i, defines={"IDX": i, "APPLY_MAX": 4096, "__NO_CTYPE": None}, tier="quick")
+                for i in range(12)]),
+    # loop-free; key / value lengths symbolic, block allocated with exactly the size sqfs_xattr_create uses
+    dict(name="pax_xattr_unb", file="w15_pax_xattr_unb.c", label="proved", timeout=600,
+         pre_instrument_flags=["--replace-calls", "urldecode:stub_urldecode"],
+         nochecks=["--conversion-check"], fp=_PAX_FP,
+         unwindset=["strlen.0:22"],
+         cases=[dict(id="max4096", defines={"XCAP": 4096, "XEXACT": None, "__NO_CTYPE": None}, tier="quick"),
+                dict(id="via_apply", defines={"XCAP": 4096, "XEXACT": None, "VIA_APPLY": None, "__NO_CTYPE": None}, tier="quick")]),
+    dict(name="sort_prio_unb", file="w15_sort_prio_unb.c", label="proved",
+         loops=["decode_priority"], loop_tables=["C07_w15"], timeout=600,
+         include_dirs=["bin/gensquashfs/src"], fp={"*": "env_never"},
+         cases=[dict(id="max4096", defines={"PRIO_MAX": 4096, "__NO_CTYPE": None}, tier="quick")]),
+    dict(name="sort_flags_unb", file="w15_sort_flags_unb.c", label="proved",
+         loops=["decode_flags"], loop_tables=["C07_w15"], timeout=600,
+         include_dirs=["bin/gensquashfs/src"], fp={"*": "env_never"},
+         cases=[dict(id="max4096", defines={"FLAGS_MAX": 4096, "__NO_CTYPE": None}, tier="quick")]),
+    # parse() of read_sparse_map_old.c: loop over 4 / 21 slots = constants of the format, unwound completely
+    dict(name="old_parse", file="w15_old_parse.c", label="proved", malloc_fail=True, timeout=600,
+         unwind=24, unwindset=["verif_nd_bytes.0:505"],
+         cases=[dict(id="count4", defines={"COUNT": 4, "__NO_CTYPE": None}, tier="quick"),
+                dict(id="count21", defines={"COUNT": 21, "__NO_CTYPE": None}, tier="quick")]),
 ]
